@@ -19,7 +19,9 @@ CFG = {
                  "interior-mutability token found in tera/src outside verif.rs, checked against the allow-list in Corr/CorrC18.v (rule O: a new kind "
                  "is an open obligation, not by itself a failing input). Implementation-side oracles (counted in evaluations, rule O): for every job "
                  "(render, render_block, render_component, render_str, one_off) x context over hand-written, grammar-generated, inheritance/include sets, "
-                 "components and the engine's snapshot corpus: String variant vs _to(Vec) vs _to(recording writer) byte-identical / same error class; a "
+                 "components, the engine's snapshot corpus and a recursion-depth boundary suite (self-recursive, mutually recursive, body-carrying and include-routed "
+                 "components driven to nesting depths around MAX_COMPONENT_RECURSION_DEPTH — the limit is found by probing — through render of a calling page, "
+                 "render_component and render_str): String variant vs _to(Vec) vs _to(recording writer) byte-identical / same error class; a "
                  "writer failing once at its k-th write call for every k (stride above a cap), byte-budget writers for every n (stride above a cap) "
                  "with whole, 1-byte and 3-byte short writes and with Ok(0), a writer interrupting every other call, a writer whose flush fails: "
                  "Err(Io), never Ok, never a panic, accepted bytes = the exact prefix, no write after the failure; repeated renders identical; "
